@@ -265,6 +265,28 @@ theorem extracted_exec_order :
     execChecksPending = true ∧ execDeletesPending = true ∧ execDeletesBeforeHandler = true ∧
     execErrorRevertsNativeAction = true := by decide
 
+/-- the effects of every event nonce are in force at most once, in every reachable state (the form the harness measures on
+the real state after every operation: field `ex=`) -/
+theorem effects_at_most_once (p : Params) (ops : List Op) (n : Nat) : (reach p ops).executedLog.count n ≤ 1 := by
+  have hn := (pending_executes_once p ops).1
+  generalize (reach p ops).executedLog = l at hn
+  induction l with
+  | nil => simp
+  | cons x r ih =>
+    rw [List.nodup_cons] at hn
+    by_cases hx : x = n
+    · subst hx
+      have : List.count x r = 0 := List.count_eq_zero.mpr hn.1
+      simp [this]
+    · have := ih hn.2
+      simp [List.count_cons, hx]; exact this
+
+/-- a call without nested calls is the familiar atomic step: the parked entry is consumed and the effects are logged once -/
+theorem exec_leaf_ok (s : State) (n : Nat) (hp : n ∈ s.pending) :
+    step s (.exec n .ok .nil) =
+      ({ s with pending := s.pending.filter (fun m => m != n), executedLog := s.executedLog ++ [n] }, .ok) := by
+  simp [step, execStep, execCalls, execCallsWith, delPending, hp, execChecksPending, execDeletesPending, execDeletesBeforeHandler]
+
 /-- a failing deferred execution leaves the whole state as it was (the entry deleted before the handler ran is restored
 together with everything the calls made from inside the handler did) — for EVERY forest of nested calls -/
 theorem exec_failure_restores (s : State) (n : Nat) (inner : Calls) : (step s (.exec n .fail inner)).1 = s := by
